@@ -35,6 +35,13 @@ def gen(seed, idx, tier):
         # life cycle: the run is continued from its own file - the Solution read back supplies both
         # the seed state and the options object, exactly as the file recorded them
         scn["reload_phase"] = {"steps": rnd.randint(2, 6)}
+    if scn["device"]["terminals"] and not scn.get("reload_phase") and not scn["options"].get("skip_time") and rnd.random() < 0.12:
+        # the run continues from the in-memory Solution of an earlier run that treated the terminals
+        # differently; afterwards the earlier run's record must still show ITS terminal value
+        tp_ = scn["options"].get("terminal_psi", 0.0)
+        scn["seed_phase"] = {"terminal_psi": rnd.choice([x for x in (None, 0.0, 0.5, 1.0) if x != tp_]), "steps": rnd.randint(2, 4)}
+        scn["faults"] = []
+        return scn
     if rnd.random() < 0.15 and not scn.get("reload_phase"):
         scen.in_metres(scn)  # which sites belong to a terminal must not depend on the size of the numbers
     return scen.maybe_restored(rnd, scen.maybe_sibling(rnd, scen.maybe_solve_twice(rnd, scn)))
@@ -46,6 +53,40 @@ def run(scn):
     from ..common import Discard
     from ..engine import run_scenario
 
+    if scn.get("seed_phase"):
+        import numpy as np
+
+        from ..common import Violation, aeq
+
+        sp = scn["seed_phase"]
+        s0 = copy.deepcopy(scn)
+        for key in ("seed_phase", "solve_twice", "sibling", "entry", "options_prior_use", "device_used_before"):
+            s0.pop(key, None)
+        s0["faults"] = []
+        s0["options"]["terminal_psi"] = sp["terminal_psi"]
+        s0["options"]["skip_time"] = 0.0
+        s0["options"]["solve_time"] = scn["options"]["dt_init"] * sp["steps"]
+        s0["observer"] = {"output": None}
+        sim0, h0 = run_scenario(s0)
+        try:
+            if h0.outcome != "solution" or h0.solution is None:
+                raise Discard(f"first run did not complete: {h0.outcome}")
+            seed = h0.solution
+            term = sorted({int(i) for ti in h0.device.terminal_info() for i in ti.site_indices})
+            before = np.array(seed.tdgl_data.psi, copy=True)
+
+            def post_seed(sim, h):
+                after = np.asarray(seed.tdgl_data.psi)
+                if not aeq(after[term], before[term]):
+                    i = term[int(np.argmax(np.abs(after[term] - before[term])))]
+                    return [Violation("terminal-value-record", f"after its Solution seeded another run, the finished run (terminal_psi={sp['terminal_psi']!r}) reports psi = {complex(after[i]):.6g} on terminal site {i} where it had recorded {complex(before[i]):.6g}", seeded=True)]
+                return []
+
+            s1 = copy.deepcopy(scn)
+            s1.pop("device_history", None)
+            return _run(s1, seed_solution=seed, mesh_from=h0.device.mesh, post=post_seed)
+        finally:
+            sim0.cleanup()
     if not scn.get("reload_phase"):
         return _run(scn)
     import tdgl
